@@ -103,7 +103,9 @@ func (c *Cache) ClearOldEntries(d time.Duration) {
 	defer c.mux.Unlock()
 	for ke, ce := range c.entries {
 		for k, e := range ce.replayMap {
-			if time.Now().UTC().Sub(e.presentedTime) > d {
+			// An authenticator stays acceptable until its client time is older than the permitted skew,
+			// however long ago it was presented, so that is how long it has to be remembered.
+			if time.Now().UTC().Sub(e.cTime) > d {
 				delete(ce.replayMap, k)
 			}
 		}
